@@ -2321,7 +2321,8 @@ class OrderedNamespaceSet(NamespaceSet[_NSO], MutableSequence[_NSO], Generic[_NS
 
     def __delitem__(self, i: Union[int, slice]) -> None:
         if isinstance(i, int):
-            i = slice(i, i+1)
+            self._order[i]  # like list.__delitem__: IndexError for an index that is out of range
+            i = slice(i, i + 1 if i != -1 else None)  # slice(-1, 0) would be empty
         for o in self._order[i]:
             super().remove(o)
         del self._order[i]
